@@ -373,7 +373,7 @@ def fixed_scenarios():
     for k, (s1, s2) in enumerate(((signal.SIGINT, signal.SIGINT), (signal.SIGTERM, signal.SIGINT))):
         out.append(dict(idx=20 + k, family="fixed", retries=0, ss=True, sf=True, fail_fast=False,
                         tests=copy.deepcopy(tests), bin_tests=copy.deepcopy(bt), overrides=[], scripts=[], threads=4,
-                        signal_on=("TestFinished", 0.25, int(s1)), signal_again=(0.2, int(s2)),
+                        signal_on=("TestFinished", 0.25, int(s1)), signal_again=(0.04, int(s2)),
                         signal_variant="double"))
     # the same two text-carrying scenarios under combined capture (a libtest-json message format)
     import copy as _copy
